@@ -105,6 +105,12 @@ def check(run):
         run.broken.append("add_forward_declaration: the name pattern is %s; this rule only knows `(\\w+(?:::\\w+)*)( *<)?` (group 1 the qualified name, group 2 the template bracket)" % rx)
     else:
         run.instance(r2, "words are matched as qualified identifiers with an optional template bracket (group 2)", (f["file"], f["line"]), ok=True)
+        # this pattern also matches tokens that start with a digit (`3ul`, the literal of a non-type template argument): they are
+        # dropped by the test on the first character
+        okd = "non-identifier" in seen
+        run.instance(r2, "a match that does not start with a letter (a numeric literal such as `3ul`) is skipped", (f["file"], lp["l"]), ok=okd)
+        if not okd:
+            run.violation(r2, "generator::add_forward_declaration|non-identifier", "with the pattern `\\w+...` a numeric literal is a match; the test on its first character is missing: `class 3ul;` would be declared", (f["file"], lp["l"]))
     # ---- starts_with
     sw = [g for g in ast.funcs if g.get("body") and g["name"].endswith("detail::starts_with")]
     if not sw:
